@@ -162,7 +162,11 @@ fn scale_fresh(spec: &Spec, k: usize, len: usize, at: &std::collections::BTreeSe
     for (name, hist) in scale_drivers(len, spec.n.max(1)) {
         let r = crate::explore::guard(|| {
             let mut a = build::<f64>(spec);
+            let started = std::time::Instant::now();
             for i in 0..hist.len() {
+                if i % 4096 == 4095 && started.elapsed().as_secs() > SCALE_BUDGET_S {
+                    return None; // budget (see ref_drivers_sparse)
+                }
                 a.update(hist[i]);
                 if i + 1 < k || !at.contains(&i) {
                     continue;
